@@ -545,45 +545,19 @@ func nullOnPath14(doc *kyaml.RNode, path []string) bool {
 	return false
 }
 
-// panicClass14 names the finding class of a panic raised by a path operation. Only the exact shape of the
-// known defect (some "-" part reaching an empty or null sequence: elems[len(elems)-1] with len 0) maps to
-// C14/panic-last-on-empty; every other panic gets a class of its own.
-func panicClass14(docText string, path []string, msg string) string {
-	if strings.Contains(msg, "index out of range [-1]") {
-		clean := cleanPath14(path)
-		doc, err := kyaml.Parse(docText)
-		if err == nil {
-			for i, p := range clean {
-				if p != "-" {
-					continue
-				}
-				var got *kyaml.RNode
-				cls, _ := protect14(func() error {
-					var e error
-					got, e = doc.Pipe(kyaml.Lookup(clean[:i]...))
-					return e
-				})
-				if cls != ClsOk {
-					break // the walk cannot have got past this point
-				}
-				if got == nil {
-					break
-				}
-				if kyaml.IsMissingOrNull(got) || (got.YNode().Kind == kyaml.SequenceNode && len(got.YNode().Content) == 0) {
-					return "C14/panic-last-on-empty"
-				}
-			}
-		}
-	}
+// panicClass14 names the class of a panic raised by a path operation. No path operation may panic (theorems
+// C14_no_panic*): every panic is an unlisted violation, classed by its message. (The former known shape, "-" on
+// an empty or null sequence, was repaired in /repo by 5cf7cc6.)
+func panicClass14(msg string) string {
 	short := msg
 	if len(short) > 60 {
 		short = short[:60]
 	}
-	return "C14/panic-other:" + strings.ReplaceAll(short, " ", "_")
+	return "C14/panic:" + strings.ReplaceAll(short, " ", "_")
 }
 
 func reportPanic14(s sink, c case14, msg string) {
-	s.Violation(OracleViolation{Law: "no_panic", Class: panicClass14(c.Doc, c.Path, msg),
+	s.Violation(OracleViolation{Law: "no_panic", Class: panicClass14(msg),
 		Detail: fmt.Sprintf("op %s path %q panics: %s", c.Op, c.Path, msg), Replay: c})
 }
 
